@@ -1,6 +1,7 @@
 package yaml
 
 import (
+	"fmt"
 	"io"
 	"os"
 
@@ -56,6 +57,11 @@ func (loader *CompilerLoader) Load(reader io.Reader) (compiler.Passes, error) {
 
 	if err := decoder.Decode(&compilerConfig); err != nil {
 		return nil, err
+	}
+
+	// an empty or null document leaves nothing to work with
+	if compilerConfig == nil {
+		return nil, fmt.Errorf("empty compiler passes file")
 	}
 
 	passes := make(compiler.Passes, 0, len(compilerConfig.Passes))
